@@ -96,3 +96,5 @@ def run(ctx, rep):
                 rep.ob(bool(is_arg), 'R14.4', fn.path, 'identity on %s' % ty, 'returns args[0] itself: %s' % s_, fn.loc())
         rep.ob(not und, 'R14.3', fn.path, 'panic sources', 'undischarged panic sources in this builtin: %s' % [s['what'].split('::')[-1] for s in und], fn.loc())
     shared.check_int_encoder_range(ctx, rep, 'R14.5', only_prefix='builtins::')
+    rep.rule('R14.6', 'float -> integer casts (which saturate silently) are range-guarded')
+    shared.check_float_casts(ctx, rep, 'R14.6')
